@@ -4,7 +4,8 @@
     fresh_jitter(...)      a new Jitter whose process-global side effects of earlier jitters are undone
     execute(jit, start)    run until the END sentinel / a fault / the dispatch budget, collect an Obs
     snapshot/restore       save and put back registers + memory of a jitter (warm-start schedules)
-    diff(a, b)             which observable components differ between two Obs
+    summary(obs)           compact exact image of an Obs (what workers send back)
+    diff(a, b)             which observable components differ between two summaries
     is_subsequence(t, r)   order-preserving subsequence test for dispatch traces
 """
 from mc import jitprog as J
@@ -22,8 +23,49 @@ def load(exts):
     from miasm.analysis.machine import Machine   # noqa: F401  (imported before forking: workers share it)
     _state["simp"] = expr_simp_explicit
     _state["simp_base"] = dict(expr_simp_explicit.expr_simp_cb)
-    _state["stderr_fd"] = J.silence_stderr()
+    # the C runtime reports every fault on fd 2: silence it, but keep Python's own sys.stderr (tracebacks) alive
+    import os
+    import sys
+    sys.stderr.flush()
+    saved = J.silence_stderr()
+    _state["stderr_fd"] = saved
+    sys.stderr = os.fdopen(saved, "w", buffering=1)
     return _state
+
+
+_asm_cache = {}
+
+
+def assemble(arch, src, base=J.CODE, room=0x400):
+    """Like jitprog.assemble, but every block chain is placed inside [base, base+room) (jitprog's version pins only
+    `main`, so chains that are not reached by fall-through land at address 0). `main` is pinned at @base.
+    Returns (bytes loaded at @base, {label: address}, sorted instruction addresses)."""
+    key = (arch, src, base, room)
+    if key in _asm_cache:
+        return _asm_cache[key]
+    from miasm.analysis.machine import Machine
+    from miasm.core import parse_asm, asmblock
+    from miasm.core.locationdb import LocationDB
+    from miasm.core.interval import interval
+    m = Machine(arch)
+    loc_db = LocationDB()
+    asmcfg = parse_asm.parse_txt(m.mn, int(arch.split("_")[-1]), src, loc_db)
+    loc_db.set_location_offset(loc_db.get_name_location("main"), base)
+    patches = asmblock.asm_resolve_final(m.mn, asmcfg, dst_interval=interval([(base, base + room - 1)]))
+    if min(patches) != base:
+        raise RuntimeError("assembler placed code below the base address")
+    hi = max(o + len(b) for o, b in patches.items())
+    buf = bytearray(b"\x90" * (hi - base))
+    for o, b in patches.items():
+        buf[o - base:o - base + len(b)] = b
+    labels = {}
+    for name in loc_db.names:
+        off = loc_db.get_location_offset(loc_db.get_name_location(name))
+        if off is not None:
+            labels[name] = off
+    out = (bytes(buf), labels, sorted(patches))
+    _asm_cache[key] = out
+    return out
 
 
 def fresh_jitter(arch, backend, jit_maxline=None, max_exec_per_call=None, cache_size=None):
@@ -104,46 +146,65 @@ def restore(jit, snap, skip_pages=()):
         raise RuntimeError("register restore failed: %r" % sorted(k for k in regs if regs[k] != got.get(k)))
 
 
-def diff(a, b, ignore_regs=()):
-    """Names of the observable components in which two runs differ (empty list: identical)."""
+def summary(obs):
+    """Compact, picklable, exact image of an Obs: registers, exception flags, jitter pc, how the run ended, the
+    dispatch trace, breakpoint log and every page as (access, size, ((offset, byte) for the non-zero bytes))."""
+    mem = {}
+    for a, d in obs.mem.items():
+        data = bytes(d["data"])
+        mem[a] = (d["access"], len(data), tuple((i, b) for i, b in enumerate(data) if b))
+    if obs.stopped:
+        term = obs.stopped
+    else:
+        term = (obs.error or "none").split(":")[0]
+    return {"regs": dict(obs.regs), "cpu_exc": obs.cpu_exc, "vm_exc": obs.vm_exc, "pc": obs.pc, "term": term,
+            "error": obs.error, "dispatch": tuple(obs.dispatch), "bp_log": tuple(tuple(x) for x in obs.bp_log), "mem": mem}
+
+
+def diff(a, b):
+    """Names of the observable components in which two run summaries differ (empty list: identical)."""
     out = []
-    ra = {k: v for k, v in a.regs.items() if k not in ignore_regs}
-    rb = {k: v for k, v in b.regs.items() if k not in ignore_regs}
-    if ra != rb:
+    if a["regs"] != b["regs"]:
         out.append("regs")
-    ma = {k: bytes(d["data"]) for k, d in a.mem.items()}
-    mb = {k: bytes(d["data"]) for k, d in b.mem.items()}
-    if ma != mb:
+    if {k: v[1:] for k, v in a["mem"].items()} != {k: v[1:] for k, v in b["mem"].items()}:
         out.append("mem")
-    if {k: d["access"] for k, d in a.mem.items()} != {k: d["access"] for k, d in b.mem.items()}:
+    if {k: v[0] for k, v in a["mem"].items()} != {k: v[0] for k, v in b["mem"].items()}:
         out.append("perm")
-    if a.cpu_exc != b.cpu_exc:
+    if a["cpu_exc"] != b["cpu_exc"]:
         out.append("cpu_exc")
-    if a.vm_exc != b.vm_exc:
+    if a["vm_exc"] != b["vm_exc"]:
         out.append("vm_exc")
-    if a.bp_log != b.bp_log:
+    if a["bp_log"] != b["bp_log"]:
         out.append("bp_log")
     return out
 
 
+def _page_bytes(page):
+    buf = bytearray(page[1])
+    for i, b in page[2]:
+        buf[i] = b
+    return bytes(buf)
+
+
 def describe_diff(a, b, names=("a", "b")):
     parts = []
-    for k in sorted(set(a.regs) | set(b.regs)):
-        if a.regs.get(k) != b.regs.get(k):
-            parts.append("%s: %s=%#x %s=%#x" % (k, names[0], a.regs.get(k, -1), names[1], b.regs.get(k, -1)))
-    for page in sorted(set(a.mem) | set(b.mem)):
-        da = bytes(a.mem[page]["data"]) if page in a.mem else b""
-        db = bytes(b.mem[page]["data"]) if page in b.mem else b""
+    for k in sorted(set(a["regs"]) | set(b["regs"])):
+        if a["regs"].get(k) != b["regs"].get(k):
+            parts.append("%s: %s=%#x %s=%#x" % (k, names[0], a["regs"].get(k, -1), names[1], b["regs"].get(k, -1)))
+    for page in sorted(set(a["mem"]) | set(b["mem"])):
+        da = _page_bytes(a["mem"][page]) if page in a["mem"] else b""
+        db = _page_bytes(b["mem"][page]) if page in b["mem"] else b""
         if da != db:
             idx = [i for i in range(max(len(da), len(db))) if da[i:i + 1] != db[i:i + 1]]
             lo, hi = idx[0], idx[-1] + 1
             parts.append("mem[%#x..%#x): %s=%s %s=%s" % (page + lo, page + hi, names[0], da[lo:hi].hex(), names[1], db[lo:hi].hex()))
-    if a.cpu_exc != b.cpu_exc:
-        parts.append("cpu exception flags: %s=%#x %s=%#x" % (names[0], a.cpu_exc, names[1], b.cpu_exc))
-    if a.vm_exc != b.vm_exc:
-        parts.append("vm exception flags: %s=%#x %s=%#x" % (names[0], a.vm_exc, names[1], b.vm_exc))
-    if a.bp_log != b.bp_log:
-        parts.append("breakpoint hits: %s=%r %s=%r" % (names[0], a.bp_log, names[1], b.bp_log))
+    if a["cpu_exc"] != b["cpu_exc"]:
+        parts.append("cpu exception flags: %s=%#x %s=%#x" % (names[0], a["cpu_exc"], names[1], b["cpu_exc"]))
+    if a["vm_exc"] != b["vm_exc"]:
+        parts.append("vm exception flags: %s=%#x %s=%#x" % (names[0], a["vm_exc"], names[1], b["vm_exc"]))
+    if a["bp_log"] != b["bp_log"]:
+        parts.append("breakpoint hits: %s=%s %s=%s" % (names[0], [(t, hex(p)) for t, p in a["bp_log"]], names[1],
+                                                       [(t, hex(p)) for t, p in b["bp_log"]]))
     return "; ".join(parts[:8]) + (" ..." if len(parts) > 8 else "")
 
 
